@@ -72,6 +72,12 @@ def alpha_item(flavour, obj):
     return {"k": "?" if flavour != "intkey" else -99, "p": -1, "bad": "alien:" + repr(obj)[:40]}
 
 
+def alpha_key(flavour, k):
+    """a key of the wrong kind (admitted by a defective container) is projected to the alien marker: TLC cannot compare ints with strings"""
+    want = int if flavour == "intkey" else str
+    return k if isinstance(k, want) and not isinstance(k, bool) else (-99 if flavour == "intkey" else "?")
+
+
 def make(flavour, typed, items=()):
     keyfn, ity, kty = FLAVOURS[flavour]
     cls = KeyedList[ity, kty] if typed else KeyedList
@@ -169,8 +175,8 @@ def project(kl, flavour):
     return {
         "lst": lst,
         "len": len(kl),
-        "keys": list(kl.keys()),
-        "items": [{"k": k, "v": al(v)} for k, v in kl.items()],
+        "keys": [alpha_key(flavour, k) for k in kl.keys()],
+        "items": [{"k": alpha_key(flavour, k), "v": al(v)} for k, v in kl.items()],
     }
 
 
